@@ -16,14 +16,15 @@ theorem locusOk_parts (f : Fields) (L : Int) (h : locusOk f L = true) : 0 ≤ L 
 
 /-- `GenBankParser` = LOCUS line, then the loop, then the length check of 6813da5 -/
 theorem genbankParser_of_loop (reg reg' : Registry) (f fF : Fields) (L : Int) (REST rest' : Bytes)
-    (tab : List QFeature) (org : OriginV) (hlocus : locusOk f L = true) (hmol : isMolecule f.molecule = true)
+    (tab : List QFeature) (org : OriginV) (hlocus : locusOk f L = true)
+    (hrange : Origin.toOriginLength L ≤ 9223372036854775807) (hmol : isMolecule f.molecule = true)
     (hloop : recordLoop L 12 (2 * REST.length + 2) (startFields f, [], .buffer [], reg) ⟨REST, []⟩ =
       (.ok (fF, tab, org, reg'), ⟨rest', []⟩))
     (hfinal : ¬ (org.len ≠ L ∧ (org.len ≠ 0 ∨ fF.contigAcc.isEmpty = true))) :
     genbankParser reg ⟨locusLine f L ++ 10 :: REST, []⟩ = (.ok (⟨fF, tab, org⟩, reg'), ⟨rest', []⟩) := by
   obtain ⟨hL0, htop⟩ := locusOk_parts f L hlocus
   have hl := locus_roundtrip f L REST [] hlocus
-  have hneg : ¬ L < 0 := by omega
+  have hneg : ¬ (L < 0 ∨ Origin.toOriginLength L > 9223372036854775807) := by omega
   have htopo := asTopology_text f.topology htop
   simp only [startFields] at hloop
   simp only [genbankParser, P.bind_run, hl, Pars.clear, getS, setS, P.pure_run, hneg, if_false, hmol,
@@ -96,7 +97,7 @@ theorem read_write (reg : Registry) (r : Record) (p : Bytes) (ho : r.origin = .r
     (hw : Writable reg r p = true) (hloc : ∀ x ∈ r.table, LocRT x.loc) (rest' : Bytes) :
     ∃ t, write reg r = .ok t ∧ t ≠ [] ∧
       genbankParser reg ⟨t ++ rest', []⟩ = (.ok (readBack reg r p, learnTable reg r.table), ⟨rest', []⟩) := by
-  obtain ⟨hlocus, hmol, hh, htw, hc, hp, hlen⟩ := writable_parts reg r p hw
+  obtain ⟨hlocus, hrange, hmol, hh, htw, hc, hp, hlen⟩ := writable_parts reg r p hw
   obtain ⟨hw1, hw2⟩ := write_eq reg r p ho hh hlen
   have hA := headerSecs_ok r.fields (locusLength r.fields p) hh
   have hB := tailSecs_ok r.fields p hc hp hlen
@@ -117,7 +118,7 @@ theorem read_write (reg : Registry) (r : Record) (p : Bytes) (ho : r.origin = .r
         (.ok (readBack reg r p, reg'), ⟨rest', []⟩) := by
     intro tab reg' REST hloop htab
     rw [secsAct_tail] at hloop
-    have := genbankParser_of_loop reg reg' r.fields _ (locusLength r.fields p) REST rest' tab _ hlocus hmol hloop (by
+    have := genbankParser_of_loop reg reg' r.fields _ (locusLength r.fields p) REST rest' tab _ hlocus hrange hmol hloop (by
       by_cases hpe : p.isEmpty = true
       · simp only [hpe, if_true, OriginV.len, Origin.originLen, List.length_nil, if_true]
         by_cases hca : r.fields.contigAcc.isEmpty = true
